@@ -673,6 +673,7 @@ func childSeq(o *output) {
 	}
 	poisonOn.Store(false)
 	childBytePoolSeq(o)
+	childBytePoolResize(o)
 }
 
 func randomSpec(r *mrand.Rand, id int, big bool) pipeSpec {
